@@ -692,3 +692,14 @@ CONTRACTS += [
                        f'ordinal_of(result.future_value) == {_WOM_FIRST} + ({_WOM_WD} - 1 - weekday_of_ordinal({_WOM_FIRST})) % 7 + 7 * ({_WOM_C} - 2)')],
              note='a fifth weekday that the month does not have is read as the last one; every reference day incl. 29-31'),
 ]
+CONTRACTS += [
+    Contract('dp.weekday_of_month.named_month.bounded', BD + 'parse_weekday_of_month', ['C08'], modular=['id:dp.env.compute_date'],
+             params=dict(is_last=Bool(), cs=Str(), wds=Str(), ms=Str(),
+                         self=Rec(DT + 'base_date.py::BaseDateParser', dict(config=_WOM_CFG)), source=Str(), swift=Const(0),
+                         reference=DateTime(2018, 2018)),
+             requires=['cs in self.config.cardinal_map', 'ms != ""', 'ms in self.config.month_of_year'],
+             regex_env={'week_day_of_month_regex': {'mode': 'match', 'groups': {'cardinal': 'cs', 'weekday': 'wds', 'month': 'ms'}}},
+             ensures=[('resolved-without-raising', 'result.success')],
+             bounded='reference dates of the year 2018 only (the unbounded contract leaves both solvers without an answer)',
+             note='"the last friday of may": the year is open, both candidates are computed and stepped back a week when they leave the month'),
+]
